@@ -837,6 +837,61 @@ rule("D6.osstring_as_bytes",
      "shim_osstring_bytes ( s )",
      "OsString::as_bytes()")
 
+rule("D6.file_open_q",
+     "File :: open ( path ) ?",
+     "( match shim_file_open ( path ) { Ok ( __v ) => __v , Err ( __e ) => return Err ( From :: from ( __e ) ) } )",
+     "File::open(path)? : world function + `?` written out (D14)")
+
+rule("D6.file_metadata_len_q",
+     "f . metadata ( ) ? . len ( )",
+     "( match shim_file_len ( & f ) { Ok ( __v ) => __v , Err ( __e ) => return Err ( From :: from ( __e ) ) } )",
+     "f.metadata()?.len() : world function + `?` written out (D14)")
+
+rule("D6.hash_file_q",
+     "c . digest . hash_file ( & mut f ) ?",
+     "( match shim_hash_file ( & c . digest , & mut f ) { Ok ( __v ) => __v , Err ( __e ) => return Err ( From :: from ( __e ) ) } )",
+     "Digest::hash_file(&mut File)? : digest world function (C13 is not decided here) + `?` written out")
+
+rule("D6.hash_patch_q",
+     "c . digest . hash_patch ( & mut f ) ?",
+     "( match shim_hash_patch ( & c . digest , & mut f ) { Ok ( __v ) => __v , Err ( __e ) => return Err ( From :: from ( __e ) ) } )",
+     "Digest::hash_patch(&mut File)?")
+
+rule("D6.string_ne_field",
+     "hash != c . hash",
+     "shim_string_ne ( & hash , & c . hash )",
+     "String != String")
+
+rule("D6.digest_ne",
+     "digest != c . digest",
+     "shim_digest_ne ( & digest , & c . digest )",
+     "derived PartialEq of the field-less Digest enum")
+
+rule("D6.path_iter_rev",
+     "path . iter ( ) . rev ( )",
+     "shim_path_iter_rev ( path )",
+     "Path::iter().rev() collected: the components, last first")
+
+rule("D6.parent_is_none",
+     "file . parent ( ) . is_none ( )",
+     "shim_parent_is_none ( & file )",
+     "PathBuf::parent().is_none()")
+
+rule("D6.pathbuf_from_join",
+     "PathBuf :: from ( component ) . join ( file )",
+     "shim_pathbuf_join ( component , file )",
+     "PathBuf::from(component).join(file)")
+
+rule("D6.pathbuf_from_component",
+     "PathBuf :: from ( component )",
+     "shim_pathbuf_from ( component )",
+     "PathBuf::from(&OsStr)")
+
+rule("D1.for_self_checksums_while",
+     "for c in & self . checksums {",
+     "let mut __i_c : usize = 0 ; while __i_c < self . checksums . len ( ) { let c = & self . checksums [ __i_c ] ; __i_c += 1 ;",
+     "for c in &self.checksums {..} with `continue` in the body -> indexed while loop (index advanced first)")
+
 rule("D6.take_digits",
      "$recv . chars ( ) . take_while ( char :: is_ascii_digit ) . collect ( )",
      "shim_take_ascii_digits ( $recv )",
